@@ -299,3 +299,7 @@ def run(repo: Repo, rep: Report, tier: str) -> None:
         ok10 = any(gpf.dominates(s, retype[0]) for s in scans)
         rep.check(ok10, "C15-R10", f"the fold declines for a producer bound in `{t10}`", "scan with `return None` dominates the retyping store" if ok10 else
                   f"`{t10}` is not scanned before `{norm(retype[0])}`: a producer bound there is retyped although the body can read it again under its old type", pf.loc(retype[0]))
+
+    # ---------------- R11 --------------------------------------------------------------
+    _borrow15(repo, rep, "C16", "C16-R6", "C15-R11", "a function body is analysed once and lowered once per call: the analyzer may rewrite the shared syntax tree only by functions of "
+              "the syntax itself, never by what a name is bound to at analysis time (a parameter's placeholder type is the same for every call site)", floor=1)
